@@ -67,10 +67,23 @@ impl Line {
             && segment.contains_point(identity, &b)
     }
 
+    /// is the point on this line segment?
+    ///
+    /// Computed with the cross and dot products, which are exact for points on the
+    /// cell grid wherever the line is on the page. The projection based test of parry
+    /// accumulates a rounding error that depends on the absolute coordinates, which
+    /// made the contact between a long diagonal and a line attached to it depend on
+    /// the position of the drawing on the page.
     fn contains_point(&self, p: Point) -> bool {
-        let segment = Segment::new(*self.start, *self.end);
-        let identity = &Isometry::identity();
-        segment.contains_point(identity, &p)
+        let (dx, dy) = (self.end.x - self.start.x, self.end.y - self.start.y);
+        let (px, py) = (p.x - self.start.x, p.y - self.start.y);
+        let cross = dx * py - dy * px;
+        let dot = dx * px + dy * py;
+        let length_squared = dx * dx + dy * dy;
+        let epsilon = 0.01;
+        cross.abs() < epsilon
+            && dot >= -epsilon
+            && dot <= length_squared + epsilon
     }
 
     fn touching_line(&self, other: &Self) -> bool {
